@@ -225,6 +225,10 @@ class C12(core.Prop):
                 return "raised: %s raised %s out of message handling (%s)" % (what, step["raised"], where)
             if not step["alive"]:
                 return "connection-closed: after %s the %s connection is closed or unregistered" % (what, where)
+            if i == c["hostile_at"] and c["label"] == "getprops-unknown-property" and c.get("coalesce") != i and \
+                    any(v["kind"].startswith(("def", "set", "del")) for v in step["seen"]):
+                return "not-ignored: a getProperties naming a property the device does not have made it publish %s" % (
+                    [v["kind"] for v in step["seen"]][:6],)
             if prev is not None:
                 allowed = set(tuple(a) for a in c["allowed"][i])
                 if c.get("coalesce") == i:
